@@ -9,12 +9,13 @@ L2     : TLC enumerates instances (size classes, argument lists, pre-existing st
 L3     : what the run produced (restored tree, manifest decoded by the independent reader, cuts) is validated by
          RoundTripTrace.tla; Hypothesis-free seeded random trees (many files, sizes around chunk/piece boundaries, symlinks).
 """
+import contextlib
 import hashlib
 import os
 import random
 from pathlib import Path
 
-from .. import harness, membackend, refcodec, tlc
+from .. import harness, linefuzz, membackend, refcodec, tlc
 from ..harness import rrepo
 
 LEVEL = 'model_checking'
@@ -111,8 +112,12 @@ def round_trip(cfg, root, files, args, pre, rng, label, tree_prefix=b'tree'):
     w.init('a', b'pw', st)
     from replicat import _verif
     _verif.controller = Controller(cfg['piece'])
+    # every third multi-worker round trip runs with its threads preempted at random lines of the pipeline functions (rv/linefuzz.py)
+    fz = cfg['conc'] > 1 and rng.random() < 0.34
+    fseed = rng.randrange(1 << 30)
     try:
-        o = w.snapshot('a', argpaths)
+        with (linefuzz.fuzz(fseed, linefuzz.SNAPSHOT, q=0.1) if fz else contextlib.nullcontext()):
+            o = w.snapshot('a', argpaths)
     finally:
         _verif.controller = None
     rec = {'label': label, 'cfg': {k: v for k, v in cfg.items()}, 'align': 4, 'snapshot_ok': bool(o.ok), 'restore_ok': False, 'files': [], 'manifest': [],
@@ -172,7 +177,8 @@ def round_trip(cfg, root, files, args, pre, rng, label, tree_prefix=b'tree'):
         junk = {'shorter': max(n - 1, 0), 'same': n, 'longer': n + 2 + rng.randrange(40)}[state]
         open(q, 'wb').write(bytes([0xEE]) * junk)
         rec['files'][fid[p] - 1]['pre'] = state
-    o2 = w.restore('a', tgt, concurrent=cfg['conc'])
+    with (linefuzz.fuzz(fseed + 1, linefuzz.RESTORE, q=0.1) if fz else contextlib.nullcontext()):
+        o2 = w.restore('a', tgt, concurrent=cfg['conc'])
     rec['restore_ok'] = bool(o2.ok)
     rec['etype'] = o2.etype
     expected_paths = {harness.restored_path(tgt, p): p for p in want}
